@@ -70,6 +70,8 @@ class Model(object):
         self.xbase = x0.copy()
         self.sl = xl - self.xbase  # lower bound w.r.t. xbase (require xpt >= sl)
         self.su = xu - self.xbase  # upper bound w.r.t. xbase (require xpt <= su)
+        self.xl_abs = xl.copy()  # bounds in absolute coordinates (never shifted), to enforce them exactly after adding xbase
+        self.xu_abs = xu.copy()
         self.projections = projections
         self.points = np.zeros((npt, n))  # interpolation points w.r.t. xbase
 
@@ -141,7 +143,8 @@ class Model(object):
             # Apply bounds and convert back to absolute coordinates
             if self.projections:
                 return dykstra(self.projections, self.xbase + self.points[k,:])
-            return self.xbase + np.minimum(np.maximum(self.sl, self.points[k, :]), self.su)
+            # (outer min/max: adding xbase can round the result just past a bound)
+            return np.minimum(np.maximum(self.xl_abs, self.xbase + np.minimum(np.maximum(self.sl, self.points[k, :]), self.su)), self.xu_abs)
 
     def rvec(self, k):
         assert 0 <= k < self.npt(), "Invalid index %g" % k
@@ -155,7 +158,8 @@ class Model(object):
         # If x were an interpolation point, get the absolute coordinates of x
         if self.projections:
             return dykstra(self.projections, self.xbase + x)
-        return self.xbase + np.minimum(np.maximum(self.sl, x), self.su)
+        # (outer min/max: adding xbase can round the result just past a bound)
+        return np.minimum(np.maximum(self.xl_abs, self.xbase + np.minimum(np.maximum(self.sl, x), self.su)), self.xu_abs)
 
     def xpt_directions(self, include_kopt=True):
         if include_kopt:
